@@ -249,7 +249,9 @@ def witness_created_parent_is_empty(prog, fn: ast.AST) -> bool:
     if len(defs) != 1:
         return False
     eb = defs[0].targets[0].id
-    calls = [n for n in cfg.nodes if n.ast is not None and n.kind in ("stmt", "test") and f"_assign_through_identifier({eb}.value)" in norm(n.ast)]
+    from sa.util import Aliases
+    al = Aliases(fn)
+    calls = [n for n in cfg.nodes if n.ast is not None and n.kind in ("stmt", "test") and f"_assign_through_identifier({eb}.value)" in al.norm(n.ast)]
     if not calls:
         return False
 
@@ -287,6 +289,10 @@ def witness_created_parent_has_no_inherit(prog, fn: ast.AST) -> bool:
         if isinstance(rt.value, ast.Constant) and rt.value.value is False:
             continue
         inside = any(isinstance(l, ast.For) and norm(l.iter) == f"{hp}.values" and any(rt is y for y in ast.walk(l)) for l in ast.walk(h.node))
+        v = rt.value
+        if isinstance(v, ast.Call) and callee(v) == "any" and len(v.args) == 1 and isinstance(v.args[0], (ast.GeneratorExp, ast.ListComp)) \
+                and norm(v.args[0].generators[0].iter) == f"{hp}.values":
+            inside = True  # any(<… for item in set.values …>) is False for an empty set
         if not inside:
             return False
     # created parents are empty attribute sets
